@@ -599,6 +599,105 @@ theorem scanN_logical_start (pre : List Nat) (h : startsLogicalLine pre = true) 
       simp [hb]
     · intro rest; left; simp
 
+/-! ### the text ends in a newline -/
+
+theorem getLast?_cons_of_getLast? {α : Type} (a : α) (l : List α) (x : α) (h : l.getLast? = some x) :
+    (a :: l).getLast? = some x := by
+  cases l with
+  | nil => simp at h
+  | cons b r => rw [List.getLast?_cons_cons]; exact h
+
+theorem getLast?_append_of_getLast? {α : Type} (l₁ l₂ : List α) (x : α) (h : l₂.getLast? = some x) :
+    (l₁ ++ l₂).getLast? = some x := by
+  induction l₁ with
+  | nil => simpa using h
+  | cons a r ih => exact getLast?_cons_of_getLast? a _ x ih
+
+theorem ensureFinalNewline_last (p : List Nat) : (ensureFinalNewline p).getLast? = some LF := by
+  unfold ensureFinalNewline
+  split
+  · rename_i b hb
+    split
+    · rename_i h; rw [hb, h]
+    · simp
+  · rfl
+
+theorem canon_last (l : List Nat) (h : l.getLast? = some LF) : (canonicalizeNewline l).getLast? = some LF := by
+  fun_induction canonicalizeNewline l with
+  | case1 => simp at h
+  | case2 => simp
+  | case3 a ha => simpa using h
+  | case4 rest ih =>
+    cases rest with
+    | nil => simp [canonicalizeNewline]
+    | cons x r =>
+      apply getLast?_cons_of_getLast?
+      apply ih
+      simpa [List.getLast?_cons_cons] using h
+  | case5 b rest hb ih =>
+    apply getLast?_cons_of_getLast?
+    apply ih
+    simpa [List.getLast?_cons_cons] using h
+  | case6 a b rest ha ih =>
+    apply getLast?_cons_of_getLast?
+    apply ih
+    simpa [List.getLast?_cons_cons] using h
+
+theorem replicate_last (n : Nat) (h : 0 < n) : (List.replicate n LF).getLast? = some LF := by
+  cases n with
+  | zero => omega
+  | succ n => simp [List.getLast?_replicate]
+
+theorem splice_last (p : List Nat) (n : Nat) (h : p.getLast? = some LF) :
+    (removeBackslashNewlineAux p n).getLast? = some LF := by
+  induction p, n using removeBackslashNewlineAux.induct with
+  | case1 n => simp at h
+  | case2 a n =>
+    have : a = 10 := by simpa using h
+    subst this
+    cases n with
+    | zero => simp [removeBackslashNewlineAux]
+    | succ n =>
+      simp only [removeBackslashNewlineAux]
+      apply getLast?_cons_of_getLast?
+      simp [List.getLast?_replicate]
+  | case3 a b rest n hs ih =>
+    simp only [removeBackslashNewlineAux, hs, and_self, if_true]
+    cases rest with
+    | nil => simp [removeBackslashNewlineAux, List.getLast?_replicate]
+    | cons x r => apply ih; simpa [List.getLast?_cons_cons] using h
+  | case4 b rest n hs ih =>
+    have hs' : ¬ (10 = 92 ∧ b = 10) := by simp
+    simp only [removeBackslashNewlineAux, LF_def, BSL_def, hs', if_false, if_true]
+    apply getLast?_cons_of_getLast?
+    apply getLast?_append_of_getLast?
+    apply ih
+    simpa [List.getLast?_cons_cons] using h
+  | case5 a b rest n hs ha ih =>
+    simp only [removeBackslashNewlineAux, hs, ha, if_false]
+    apply getLast?_cons_of_getLast?
+    apply ih
+    simpa [List.getLast?_cons_cons] using h
+
+theorem skipBOM_last (b : List Nat) (h : b.getLast? = some LF) : (skipBOM b).getLast? = some LF := by
+  unfold skipBOM bomLen
+  by_cases hb : hasBOM b = true
+  · simp only [hb, if_true]
+    have e := hasBOM_eq b hb
+    generalize b.drop 3 = r at e
+    subst e
+    cases r with
+    | nil => simp at h
+    | cons x r' =>
+      simpa [List.getLast?_cons_cons] using h
+  · simp [hb, h]
+
+/-- the text before `convert_universal_chars` always ends in '\n' (so that pass never meets a backslash as the last byte,
+    where the C code would copy the terminator and run past it) -/
+theorem sourceText_last (bytes : List Nat) : (sourceText bytes).getLast? = some LF := by
+  unfold sourceText removeBackslashNewline
+  exact splice_last _ _ (canon_last _ (skipBOM_last _ (ensureFinalNewline_last bytes)))
+
 /-! ### one file's events -/
 
 def Ev.isDir : Ev → Bool
